@@ -8,7 +8,31 @@ sys.dont_write_bytecode = True
 sys.path.insert(0, os.path.dirname(os.path.abspath(__file__)))
 
 
+def private_tmp():
+    """every scratch file of this run lives under one directory that is removed when the run ends (also on exit 2);
+    directories left behind by runs that were killed are removed when their process is gone"""
+    import atexit
+    import shutil
+    import tempfile
+    base = tempfile.gettempdir()
+    for n in os.listdir(base):
+        if n.startswith('pelverif_'):
+            try:
+                pid = int(n.split('_')[1])
+                os.kill(pid, 0)
+            except (ValueError, IndexError, PermissionError):
+                continue
+            except ProcessLookupError:
+                shutil.rmtree(os.path.join(base, n), ignore_errors=True)
+    root = tempfile.mkdtemp(prefix='pelverif_%d_' % os.getpid())
+    tempfile.tempdir = root
+    os.environ['TMPDIR'] = root
+    atexit.register(shutil.rmtree, root, True)
+    return root
+
+
 def main():
+    tmproot = private_tmp()
     ap = argparse.ArgumentParser()
     ap.add_argument('prop')
     ap.add_argument('--tier', default=os.environ.get('VERIF_TIER', 'quick'), choices=['quick', 'thorough'])
@@ -30,6 +54,8 @@ def main():
         time.sleep(limit)
         sys.stdout.flush()
         print('INFRASTRUCTURE ERROR in check %s: wall-clock limit of %.0f s exceeded (exit 2, not a verdict)' % (prop, limit), flush=True)
+        import shutil
+        shutil.rmtree(tmproot, ignore_errors=True)
         os._exit(2)
     import threading
     threading.Thread(target=guard, daemon=True).start()
